@@ -250,3 +250,9 @@ unary("np.apply_along_axis", lambda a: np.apply_along_axis(np.sum, 1, a), [{}], 
 unary("np.apply_along_axis", lambda a: np.apply_along_axis(lambda v: v[::-1], 0, a), [{}], [(2, 3)])
 unary("np.apply_over_axes", lambda a: np.apply_over_axes(np.sum, a, [0]), [{}], [(2, 3)])
 unary("np.apply_over_axes", lambda a: np.apply_over_axes(np.sum, a, (0, 1)), [{}], [(2, 3), (2, 1, 3)])
+
+# negative indices under mode="clip" select element 0 (mode="raise" would select the last): a dropped mode= changes values
+T("np.take", "mode-clip-negative|(4,)", lambda a: np.take(a, [-1, 2], mode="clip"), {"a": I("X", (4,))})
+T("np.take", "mode-clip-negative,axis1|(2,3)", lambda a: np.take(a, [-2, 1], axis=1, mode="clip"), {"a": I("X", (2, 3))})
+T("np.put", "mode-clip-negative|(4,)", lambda a, v: np.put(a, [-1, 2], v, mode="clip"), {"a": I("X", (4,)), "v": I("X", (2,))}, cls="none", inplace=("a",))
+T("np.take_along_axis", "negative|(2,3)", lambda a, i: np.take_along_axis(a, i - 2, axis=1), {"a": I("X", (2, 3)), "i": I(None, (2, 2), "idx")})
